@@ -45,7 +45,7 @@ CFG = {
     ]] + [T + "tie_" + t for t in TIES] + [T + "tie_body_" + t for t in CTORS] + [T + n for n in [
         "C10_src_init_total", "C10_src_init_idempotent", "C10_src_init_frame",
         "C10_datum_frame", "C10_datum_pure", "C10_datum_history", "C10_pure_with_datums", "C10_step_datums_frame",
-        "C10_mem_refines", "C10_mem_refines_flat", "C10_mem_refines_nil", "C10_mem_vertices",
+        "C10_mem_refines", "C10_mem_refines_flat", "C10_mem_refines_nil", "C10_mem_vertices", "C10_mem_input_kept",
     ]],
     "trusted_base": [
         "Lean 4.33.0 kernel; axioms of every theorem printed by #print axioms must be within {propext, Classical.choice, Quot.sound}",
@@ -77,6 +77,7 @@ CFG = {
             "entries WGS84/EPSG:4326/EPSG:3857/GOOGLE, grid-shift datums and failing constructors, random}; every answer compared bit-for-bit with a freshly "
             "parsed + freshly built transformer's answer, with the Lean model's answer, and the SR states with the model's. "
             "Second round: +R_A/+rf/+from_greenwich/+to_meter references; NewTransform as a history step (transformers built between calls, state tags checked before and after every call); gt lines run three calls (identical repeat, then after in-place mutation of the operand) with late re-check of earlier results, inputs laid out as windows of one flat buffer / prefix re-slices / nil-for-empty, dyadic scales, size thresholds 63..2048. "
+            "Phase 3: consecutive calls of one transformer repeat the previous input exactly (30 %) or as a NEAR duplicate (25 %: one coordinate equal, the other 1 ulp / 1e-10 / 1e-7 relative / 0.25 away) so approximately or half keyed memos answer from the wrong entry. "
             "distinct = distinct input line; non-trivial = class not nocalls/skipped/bad",
     "trivial_class": r"(nocalls|skipped|^gt-bad|^hist-bad)",
     "timeout": {"quick": 600, "thorough": 3000},
